@@ -68,6 +68,10 @@ def run_pair(case):
     info = dict(prefix_events=len(p1), fills=sum(1 for e in p1 if e['ev'] == 'executed' and e.get('after') == 'EXECUTED'),
                 differs_after=(r1['trace'] != r2['trace']), err1=r1['error'] and r1['error']['type'], err2=r2['error'] and r2['error']['type'])
     vios = []
+    if 'Watchdog' in (info['err1'], info['err2']):
+        # a looping program was stopped by the harness' wall-clock watchdog: where it stops is not a function of the inputs
+        info['watchdog'] = True
+        return [], info
     d = first_diff(p1, p2)
     if d is not None:
         i, x, y, keys = d
@@ -132,7 +136,7 @@ def run_shard(acc, shard, nshards, seed, tier):
     def chk(case):
         vios, info = run_pair(case)
         spec = case['spec']
-        nt = info['fills'] >= 1 and info['differs_after']
+        nt = info['fills'] >= 1 and info['differs_after'] and not info.get('watchdog')
         cl = ['sim:' + ('fast' if spec['fast'] else 'step'), 'type:' + spec['cfg']['type'], f"routes={len(spec['routes'])}", f"data={len(spec['data'])}",
               'data-only-symbol' if len(spec['candles']) > len(spec['routes']) else 'traded-symbols-only',
               'warmup' if spec['warmup'] else 'no-warmup', 'tf:' + spec['routes'][0]['timeframe']]
